@@ -214,6 +214,7 @@ impl<E: Endianness, BR: BitRead<E>, const PRINT: bool> BitRead<E> for CountBitRe
     }
 
     fn skip_bits_after_peek(&mut self, n: usize) {
+        self.bits_read += n;
         self.bit_read.skip_bits_after_peek(n)
     }
 }
